@@ -1,6 +1,7 @@
 #!/usr/bin/env python3
 """dev helper: find_witness.py <profile> <seed> <cases> <oracle-key> [type] — shrink the first failing case of an oracle"""
 import importlib.machinery, importlib.util, sys, subprocess
+subprocess.run(['cargo','build','--release','--offline','-q'],cwd='/verif/harness',stderr=subprocess.DEVNULL)
 loader = importlib.machinery.SourceFileLoader("check", "/verif/check")
 spec = importlib.util.spec_from_loader("check", loader); chk = importlib.util.module_from_spec(spec); loader.exec_module(chk)
 prof, seed, n, key = sys.argv[1:5]
